@@ -536,4 +536,53 @@ theorem hash_seek_upgrade_sound (C : Crypto) (bs : Array Bytes) (wfork : Nat) (S
               · exact Or.inr (Or.inr (Or.inr hok))
         · simp [hm] at hvt
 
+/-- **seek-only proofs** (no block, no hash section, no upgrade): the seek root is compared with a stored node -/
+theorem seek_only_sound (C : Crypto) (bs : Array Bytes) (t : Tree) (f : File) (pk : Bytes) (p : Proof) (s : DataSeek) (n0 : Node) (srest : List Node)
+    (cs' : Changeset) (hb : p.block = none) (hh : p.hash = none) (hs : p.seek = some s) (hsn : s.nodes = n0 :: srest) (hu : p.upgrade = none)
+    (hcan : Canon n0.index) (hauth : StoreAuthentic C bs t f) (hv : t.verifyProof C f p pk = .ok cs') :
+    Collision C ∨ ∃ d o, n0.index = Flat.index d o ∧ n0.hash = (RefTree.node C bs d o).2
+      ∧ (n0.length = (RefTree.node C bs d o).1 → ∀ n ∈ srest, ∃ dn on, n = nodeAt C bs dn on) := by
+  obtain ⟨d, o, _, hidx, hnew⟩ := canon_new n0.index hcan
+  unfold verifyProof at hv
+  simp only [hb, hh, hs, hu, verifyTree, untrustedOf, noSeekOf, hsn, List.isEmpty_cons, Option.isNone_none, Bool.true_and,
+    Bool.false_eq_true, ite_false, seekHalf, andThen, hnew, plainQueue_eq] at hv
+  have hi : n0.index = (iat d o).index := hidx
+  rw [shift_plain n0 srest _ hi] at hv
+  simp only [] at hv
+  cases hc : climb C ((plainQueue srest).length + 1) (plainQueue srest) (iat d o) n0 (n0 :: t.changeset.rnodes) with
+  | error e => rw [hc] at hv; simp at hv
+  | ok pr =>
+    obtain ⟨root, rn'⟩ := pr
+    rw [hc] at hv
+    simp only [] at hv
+    cases hreq : t.requiredNode f root.index with
+    | error e => rw [hreq] at hv; simp at hv
+    | ok v =>
+      rw [hreq] at hv
+      simp only [] at hv
+      by_cases hne : v.hash ≠ root.hash
+      · simp [hne] at hv
+      · have heq : v.hash = root.hash := by simpa using hne
+        obtain ⟨hridx, hsound⟩ := climb_sound C bs srest _ d o n0 _ root rn' hc hidx
+        have hnode := requiredNode_node? t f _ v hreq
+        rw [hridx] at hnode
+        have hrh : root.hash = (RefTree.node C bs (d + srest.length) (o / 2 ^ srest.length)).2 := by
+          rw [← heq]; exact hauth _ _ _ hnode
+        rcases hsound hrh with hcol | ⟨h1, h2⟩
+        · exact Or.inl hcol
+        · exact Or.inr ⟨d, o, hidx, h1, fun hl => (h2 hl).2⟩
+
+/-- a seek section without nodes is no seek section -/
+theorem verifyTree_empty_seek (C : Crypto) (block : Option DataBlock) (hash : Option DataHash) (s : DataSeek) (hs : s.nodes = []) (cs : Changeset) :
+    verifyTree C block hash (some s) cs = verifyTree C block hash none cs := by
+  obtain ⟨bytes, nodes⟩ := s
+  simp only at hs
+  subst hs
+  rfl
+
+theorem verifyProof_empty_seek (C : Crypto) (t : Tree) (f : File) (p : Proof) (pk : Bytes) (s : DataSeek) (hp : p.seek = some s) (hs : s.nodes = []) :
+    t.verifyProof C f p pk = t.verifyProof C f { p with seek := none } pk := by
+  unfold verifyProof
+  simp only [hp, verifyTree_empty_seek C p.block p.hash s hs]
+
 end HC.HashUpgradeSound
